@@ -48,7 +48,7 @@ def extract_buffer_node(ctx, sliced, fired, m15):
             (r'void grow_my_array\( size_t minimum_size \)', 'item_buffer_grow_my_array', GROW, None),
             (r'bool buffer_full\(\)', 'item_buffer_buffer_full', [], None),
             (r'bool push_back\(item_type& v\s', 'item_buffer_push_back', [(r'set_my_item\(my_tail, v\);', 'set_my_item(my_tail, v);', 0)], None),
-            (r'bool pop_back\(item_type& v\s', 'item_buffer_pop_back', [(r'v = e->item;', '*v = e->item;', 0)], None),
+            (r'bool pop_back\(item_type& v\s', 'item_buffer_pop_back', [(r'v = e->item;', '*v = e->item;', 0), (r'my_item_reserved\(([^()]*)\)', r'(element(\1).state == reserved_item)', 0)], None),
             (r'bool pop_front\(item_type& v\s', 'item_buffer_pop_front', [(r'v = e->item;', '*v = e->item;', 0)], None)]
     s2, f2 = [], {}
     ib, rw, conv = m15.extract_item_buffer(ctx, s2, f2, more=more)
